@@ -99,7 +99,7 @@ pub fn c05(ctx: &Ctx) -> Report {
     let mut runs = Vec::new();
     for tcp in [false, true] {
         let mut s = base_slice("completion", "C05", tcp);
-        s.send = vec![(0, Seal::None, 0), (1, Seal::Sha1, 0)];
+        s.send = vec![(0, Seal::None, 0), (1, Seal::Sha1, 0), (1, Seal::Sha1, 0x10)];
         s.send_other = vec![(1, 0)];
         s.poll_whens = vec![When::Now, When::Wake, When::WakePlus700];
         s.resp = vec![(2, Auth::None, 0), (2, Auth::Sha1(1), 0), (3, Auth::Sha1(2), 1)];
@@ -156,7 +156,7 @@ pub fn c07(ctx: &Ctx) -> Report {
         s.ids = 2;
         s.max_live = 2;
         s.max_sends = 2;
-        s.send = vec![(0, Seal::None, 0), (0, Seal::Sha1, 0), (0, Seal::Sha256, 1), (0, Seal::Both, 0), (0, Seal::Sha1, 2)];
+        s.send = vec![(0, Seal::None, 0), (0, Seal::Sha1, 0), (0, Seal::Sha256, 1), (0, Seal::Both, 0), (0, Seal::Sha1, 2), (0, Seal::Sha1, 0x10), (0, Seal::Sha256, 0x21), (0, Seal::Both, 0x30)];
         s.poll_whens = vec![When::Now, When::Wake, When::WakePlus1];
         let mut resp = Vec::new();
         for auth in [Auth::None, Auth::Sha1(1), Auth::Sha1(2), Auth::Sha256(1), Auth::Both(1), Auth::Sha1Flipped(1), Auth::Sha1(0), Auth::Sha256(2)] {
@@ -261,8 +261,24 @@ pub fn c18(ctx: &Ctx) -> Report {
         s.rebuild = vec![1];
         runs.push(SliceRun { slice: s, depth: ctx.tier.pick(8, 10) });
     }
+    // answering: requests arrive from two peers (also the same request again), success and error responses
+    // of different contents under the request's id go to both, ticks of 1 ms / 250 ms / 41 s in between: what
+    // is transmitted is what was handed to send, every time
+    for tcp in [false, true] {
+        let mut s = base_slice("answers", "C18", tcp);
+        s.ids = 1;
+        s.max_live = 1;
+        s.max_sends = 1;
+        s.send = vec![];
+        s.send_other = vec![(4, 0), (5, 0), (4, 1), (5, 1), (2, 0)];
+        s.incoming = vec![(0, 0), (0, 1), (1, 0)];
+        s.poll_whens = vec![When::Now];
+        s.ticks = vec![1, 41_000];
+        s.drain = false;
+        runs.push(SliceRun { slice: s, depth: ctx.tier.pick(6, 7) });
+    }
     let req = ["timed out", "two requests due at one poll, non-default order taken"];
-    run_slices(ctx, runs, &req, "all histories up to the depth over {send with two payload shapes to P1/P2, send indication / success / error response, poll at wake / wake+700ms x all orders, configure (7ms,3,0) / (60s,8,60s), one dropped response}, UDP and TCP, drain from every state so that every retransmission of every schedule position is inspected: bytes = the harness' own serialisation, from = local, to = destination, transport, peer_address; plus single-transaction schedules to completion with a reconfiguration (five configurations), cancel_retransmissions or a dropped response at every step index", Some(crate::agent::schedule::transmission_sweep(ctx).merge(crate::agent::scale::sweep("C18", ctx.tier == Tier::Thorough))))
+    run_slices(ctx, runs, &req, "all histories up to depth 6 (7) over {a request / an indication arriving from two peers, success / error responses of two different contents under that request's id sent to both peers, ticks of 1 ms / 41 s}; all histories up to the depth over {send with two payload shapes to P1/P2, send indication / success / error response, poll at wake / wake+700ms x all orders, configure (7ms,3,0) / (60s,8,60s), one dropped response}, UDP and TCP, drain from every state so that every retransmission of every schedule position is inspected: bytes = the harness' own serialisation, from = local, to = destination, transport, peer_address; plus single-transaction schedules to completion with a reconfiguration (five configurations), cancel_retransmissions or a dropped response at every step index", Some(crate::agent::schedule::transmission_sweep(ctx).merge(crate::agent::scale::sweep("C18", ctx.tier == Tier::Thorough))))
 }
 
 pub fn c20(ctx: &Ctx) -> Report {
@@ -295,6 +311,7 @@ pub fn c20(ctx: &Ctx) -> Report {
     // thread teardown: small histories of four families in the body of a thread and again from a
     // thread-local destructor at its exit (child process)
     crate::teardown::judge("C20", "agent", &mut rep.acc);
+    crate::teardown::callsite_sweep("C20", "agent", &mut rep.acc);
     rep.assumptions.push("thread teardown probe (harness/src/teardown.rs): 12 small histories (transactions, peers, sizes, responses x UDP / TCP) replayed from the destructor of a thread-local registered before the library's first use on the thread, in a child process; replies must equal those of the thread body".into());
     rep.assumptions.push(format!(
         "ambient seams (harness/src/ambient.rs): clock_gettime and getenv of this process are the harness' own; on the replay threads of this run the clock was read {} time(s) (the harness' own wall-clock variants included) and the environment was asked {} time(s) for names other than RUST_*, VERIF_*, NO_COLOR (names read: {:?}); every name read is re-run under {} values and unset",
